@@ -17,14 +17,52 @@ let c31 = function
                                   | 3 -> Model.Replace | _ -> failwith "op") (ints_of_sx ops) in
     if Model.lev_check act' exp' d' ops' then
       let nt = act' <> [] && exp' <> [] && act' <> exp' in
-      Printf.sprintf "OK %d" (if nt then 1 else 0)
+      (* informational: does the faithful model give the very same script? *)
+      let (md, mops) = Model.lev act' exp' in
+      Printf.sprintf "OK %d %s" (if nt then 1 else 0) (if md = d' && mops = ops' then "same-as-faithful-model" else "other-minimal-script")
     else
       Printf.sprintf "FAIL lev_check rejected (model distance %d)" (int_of_nat (Model.dist act' exp'))
+  | _ -> "FAIL malformed case"
+
+(* C08 *)
+let dfa_of_sx = function
+  | L [p0; k; L ts] ->
+    let tr = List.map (fun t -> match ints_of_sx t with
+        | [f; c; t'; p] -> { Model.t_from = n_of_int f; t_tok = n_of_int c; t_to = n_of_int t'; t_prod = z_of_int p }
+        | _ -> failwith "trans") ts in
+    { Model.prod0 = z_of_int (int_of_sx p0); transitions = tr; depth = nat_of_int (int_of_sx k) }
+  | _ -> failwith "dfa"
+
+let c08 = function
+  | [d; _; A "panic"] -> ignore d; "FAIL key=panic implementation panicked"
+  | [d; buf; res] ->
+    let d' = dfa_of_sx d in
+    let buf' = ns_of_sx buf in
+    if not (Model.sortedb d'.Model.transitions && Model.wfd d') then "SKIP automaton not sorted/well-formed"
+    else begin
+      let k = int_of_nat d'.Model.depth in
+      match res with
+      | L [A "err"; _] -> if List.length buf' < k then "SKIP short buffer" else "FAIL key=othererr unexpected error kind"
+      | _ ->
+        let r = (match res with L [A "ok"; p] -> Some (z_of_int (int_of_sx p)) | A "prederr" -> None | _ -> failwith "res") in
+        (* non-trivial: the buffer follows the automaton for >= 1 token and then leaves it within depth *)
+        let rec firstn n l = if n = 0 then [] else match l with [] -> [] | x :: t -> x :: firstn (n - 1) t in
+        let runs n = Model.run d'.Model.transitions (firstn n buf') N0 d'.Model.prod0 <> None in
+        let nt = ref false in
+        for n = 1 to k - 1 do if runs n && not (runs (n + 1)) && List.length buf' > n then nt := true done;
+        if Model.eval_check d' buf' r then Printf.sprintf "OK %d %s" (if !nt then 1 else 0) (match r with Some _ -> "predict" | None -> "error")
+        else begin
+          let m = (match Model.eval d' buf' with Model.Predict p -> Printf.sprintf "predict %d" (int_of_z p) | Model.PredictionError -> "prediction error" | Model.LexerErr -> "lexer error") in
+          let old = (match Model.eval_old d' buf', r with Model.Predict p, Some q when p = q -> " (agrees with the pre-fix walk eval_old: an unmatched token was skipped)" | _ -> "") in
+          Printf.sprintf "FAIL key=%s eval_check rejected: model says %s%s" (if old <> "" then "skips-unmatched-token" else "mismatch") m old
+        end
+    end
   | _ -> "FAIL malformed case"
 
 let dispatch (sx : Sexp.t) : string =
   match sx with
   | L (A "lev" :: args) -> c31 args
+  | L (A "eval" :: args) -> c08 args
   | _ -> "SKIP unknown case kind"
 
 let () =
